@@ -18,6 +18,7 @@ formatting it again changes nothing.
 import GoZero.Base.Trace
 import GoZero.C20.Spec
 import GoZero.C20.WfDec
+import GoZero.C20.Scan
 namespace GoZero.C20
 
 open GoZero
@@ -51,6 +52,117 @@ def isKvWord (w : String) : Bool :=
 /-- words after marker `m` up to the next marker / header word -/
 def sectionAfter (ws : List String) (m : String) : List String :=
   ((ws.dropWhile (· ≠ m)).drop 1).takeWhile fun w => !(isMarker w) && !(isKvWord w)
+
+
+/-! ### round 4: the source text (from the `s` ops) and the scanner model -/
+
+def hexVal (c : Char) : Nat :=
+  if '0' ≤ c ∧ c ≤ '9' then c.toNat - 48 else if 'a' ≤ c ∧ c ≤ 'f' then c.toNat - 87
+  else if 'A' ≤ c ∧ c ≤ 'F' then c.toNat - 55 else 0
+
+/-- inverse of the harness' `esc` (same cases as its `unesc`) -/
+def unescL : List Char → List Char
+  | '\\' :: 's' :: r => ' ' :: unescL r
+  | '\\' :: 'n' :: r => '\n' :: unescL r
+  | '\\' :: 't' :: r => '\t' :: unescL r
+  | '\\' :: 'r' :: r => '\r' :: unescL r
+  | '\\' :: 'f' :: r => Char.ofNat 12 :: unescL r
+  | '\\' :: 'v' :: r => Char.ofNat 11 :: unescL r
+  | '\\' :: '\\' :: r => '\\' :: unescL r
+  | '\\' :: 'u' :: a :: b :: c :: d :: r =>
+    Char.ofNat (((hexVal a * 16 + hexVal b) * 16 + hexVal c) * 16 + hexVal d) :: unescL r
+  | c :: r => c :: unescL r
+  | [] => []
+
+/-- the harness' `esc` -/
+def escL : List Char → List Char
+  | [] => []
+  | c :: r =>
+    (if c = ' ' then ['\\', 's'] else if c = '\n' then ['\\', 'n'] else if c = '\t' then ['\\', 't']
+     else if c = '\r' then ['\\', 'r'] else if c.toNat = 12 then ['\\', 'f'] else if c.toNat = 11 then ['\\', 'v']
+     else if c = '\\' then ['\\', '\\'] else if c.toNat = 0x85 then "\\u0085".toList
+     else if c.toNat = 0xA0 then "\\u00a0".toList else if c.toNat = 0x2028 then "\\u2028".toList
+     else if c.toNat = 0x2029 then "\\u2029".toList else [c]) ++ escL r
+
+def kindName : K → String
+  | .ILLEGAL => "ILLEGAL" | .IDENT => "IDENT" | .INT => "INT" | .DURATION => "DURATION" | .STRING => "STRING"
+  | .RAW => "RAW" | .SUB => "SUB" | .MUL => "MUL" | .QUO => "QUO" | .ASSIGN => "ASSIGN" | .LPAREN => "LPAREN"
+  | .LBRACK => "LBRACK" | .LBRACE => "LBRACE" | .COMMA => "COMMA" | .DOT => "DOT" | .RPAREN => "RPAREN"
+  | .RBRACE => "RBRACE" | .RBRACK => "RBRACK" | .SEMICOLON => "SEMICOLON" | .COLON => "COLON"
+  | .ELLIPSIS => "ELLIPSIS" | .AT_DOC => "AT_DOC" | .AT_HANDLER => "AT_HANDLER" | .AT_SERVER => "AT_SERVER"
+  | .ANY => "ANY" | .OTHER => "OTHER"
+
+def b01 (b : Bool) : String := if b then "1" else "0"
+
+/-- the words the harness prints for a raw token list (comments as `COMMENT|0|0|'text` / `DOCUMENT|0|0|'text`) -/
+def rtokWords : Nat → List Scan.RTok → List String
+  | _, [] => []
+  | prev, t :: r =>
+    match t.k with
+    | .tok k =>
+      let cm : Bool := match r with
+        | n :: _ => (n.k == .comment || n.k == .document) && n.line == t.line
+        | [] => false
+      s!"{kindName k}|{b01 (decide (t.line > prev))}|{b01 cm}|'{String.ofList (escL t.text)}" :: rtokWords t.line r
+    | .comment => s!"COMMENT|0|0|'{String.ofList (escL t.text)}" :: rtokWords prev r
+    | .document => s!"DOCUMENT|0|0|'{String.ofList (escL t.text)}" :: rtokWords prev r
+
+def isCommentWord (w : String) : Bool := w.startsWith "COMMENT|" || w.startsWith "DOCUMENT|"
+
+/-- text of a token word (escaped form) -/
+def wordText (w : String) : List Char :=
+  match w.splitOn "|" with
+  | _ :: _ :: _ :: rest => (("|".intercalate rest).toList).drop 1
+  | _ => []
+
+def noWS (cs : List Char) : List Char := cs.filter fun c => !Scan.isWS c
+
+/-- first position where two word lists differ -/
+def firstDiff : Nat → List String → List String → String
+  | i, a :: r, b :: q => if a == b then firstDiff (i + 1) r q else s!"token {i}: model {a} / real {b}"
+  | i, a :: _, [] => s!"token {i}: model {a} / real <end>"
+  | i, [], b :: _ => s!"token {i}: model <end> / real {b}"
+  | _, [], [] => "equal"
+
+/-- scanner: correspondence model = real (token kinds, texts, line-break and comment flags, comments), and the
+model-free monitor: a scan without ILLEGAL token neither loses nor invents a character -/
+def runScan (r : Report) (sec line : Nat) (src : List Char) (lex prs : String) (t1 : List String) (what cls : String) : Report := Id.run do
+  let mut r := r
+  match Scan.scanAll src with
+  | .err =>
+    r := r.addCover "scan-model-error"
+    if lex != "err" then r := r.mismatch sec line s!"scanner model ({what}): error" s!"lex={lex}"
+  | .stuck =>
+    r := r.addCover "scan-model-stuck"
+    if lex != "err" then r := r.mismatch sec line s!"scanner model ({what}): `@` as the last rune is returned for ever" s!"lex={lex}"
+  | .ok ts =>
+    if lex != "ok" then r := r.mismatch sec line s!"scanner model ({what}): {ts.length} tokens" s!"lex={lex}"
+    else
+      let mw := rtokWords 0 ts
+      if mw != t1 then r := r.mismatch sec line s!"scanner model ({what})" (firstDiff 0 mw t1)
+      else r := r.addCover "scan-model-equal"
+      for t in ts do
+        match t.k with
+        | .tok .DURATION => r := r.addCover "scan-duration"
+        | .tok .ANY => r := r.addCover "scan-interface{}"
+        | .tok .ELLIPSIS => r := r.addCover "scan-ellipsis"
+        | .tok .ILLEGAL => r := r.addCover "scan-illegal"
+        | .tok .INT => r := r.addCover "scan-int"
+        | .tok .RAW => r := r.addCover "scan-raw-string"
+        | .comment => r := r.addCover "scan-line-comment"
+        | .document => r := r.addCover "scan-block-comment"
+        | _ => pure ()
+  -- judged for every text the real parser ACCEPTS (those tokens are what the formatter writes back); an invalid text
+  -- only has to be rejected (`..` is read as one DOT, the runes in front of an ILLEGAL rune of a duration are dropped)
+  if lex == "ok" && prs == "ok" then
+    let got := noWS (unescL (t1.flatMap wordText))
+    if got != noWS src then
+      let msg := s!"the scanner lost or invented characters ({what}): the token texts are not the source without white space: {String.ofList (escL (got.take 120))}"
+      -- the reproduction stream of the NUL defect (C20_NUL=1; not part of the default streams)
+      if cls == "nul-rune" then r := (r.violation sec line s!"[known-class nul-rune] {msg}").addCover "known-class-nul-rune"
+      else r := r.violation sec line msg
+    else r := r.addCover "scan-conserves-characters"
+  return r
 
 def stmtKind : Stmt → String
   | .syntaxS _ => "stmt-syntax" | .info _ => "stmt-info" | .importLit _ => "stmt-import"
@@ -92,6 +204,7 @@ def classExpects (cls : String) (kind : String) : Bool :=
   | "ml-comment" => kind == "idem"
   | "ctl-literal" => kind == "idem" || kind == "desc"
   | "star-slash" => kind == "rejected"
+  | "nul-rune" => kind == "cons"
   | _ => false
 
 def viol (r : Report) (sec line : Nat) (cls kind msg : String) : Report :=
@@ -110,7 +223,7 @@ def coverSlots (r : Report) (cfg : List String) : Report := Id.run do
     | _ => pure ()
   return r
 
-def runFmt (r : Report) (sec : Nat) (line : Nat) (cfg : List String) (obs : List String) : Report := Id.run do
+def runFmt (r : Report) (sec : Nat) (line : Nat) (cfg : List String) (src : List Char) (obs : List String) : Report := Id.run do
   let kind := kvStr cfg "kind" "valid"
   let cls0 := kvStr cfg "class" "main"
   let sure := kvStr cfg "sure" "0" == "1"
@@ -140,13 +253,20 @@ def runFmt (r : Report) (sec : Nat) (line : Nat) (cfg : List String) (obs : List
     r := r.violation sec line s!"crash instead of an error: lex={lex} parse={prs} fmt={fmt} (kind={kind})"
     r := r.addCover "panic"
     return r
+  let t1all := sectionAfter obs "T1"
+  r := runScan r sec line src lex prs t1all "source" cls0
   if lex != "ok" then
     r := r.addCover "scanner-error"
     if prs == "ok" || fmt == "ok" then
       r := r.violation sec line s!"scanner reports an error but parse={prs} fmt={fmt}"
     if sure then r := viol r sec line cls "rejected" s!"a source that is valid by construction is rejected by the scanner: lex={lex}"
     return r
-  match parseTokWords (sectionAfter obs "T1") with
+  -- round 4: the tokens the model parser judges are the MODEL scanner's (valid source = scanner model + grammar model
+  -- accept the text); they are the real scanner's tokens unless a MISMATCH was reported above
+  let t1judge := match Scan.scanAll src with
+    | .ok ts => rtokWords 0 ts
+    | _ => t1all
+  match parseTokWords (t1judge.filter (!isCommentWord ·)) with
   | none => return r.mismatch sec line "token words" "unparsable T1"
   | some t1 =>
   let m1 := parse t1
@@ -203,7 +323,7 @@ def runFmt (r : Report) (sec : Nat) (line : Nat) (cfg : List String) (obs : List
   if lex2 != "ok" || prs2 != "ok" then
     if lenient then return r.addCover "skip-mutated-with-comments-reparse"
     return viol r sec line cls "reparse" s!"formatted text is not a valid source: lex2={lex2} parse2={prs2}"
-  match parseTokWords (sectionAfter obs "T2") with
+  match parseTokWords ((sectionAfter obs "T2").filter (!isCommentWord ·)) with
   | none => return r.mismatch sec line "token words" "unparsable T2"
   | some t2 =>
   -- correspondence: formatter (token texts) and parser on the formatted text
@@ -231,14 +351,66 @@ def runFmt (r : Report) (sec : Nat) (line : Nat) (cfg : List String) (obs : List
   if dump (norm m2) == dump m2 then r := r.addCover "output-normal"
   return r
 
+/-- round 4: the ops that call the real code several times / with several instances / through format.File.
+Model-free monitors: the observations of one text must agree with each other. -/
+def runExtra (r : Report) (sec line : Nat) (op : String) (obs : List String) : Report := Id.run do
+  let mut r := r.addCover ("op-" ++ op)
+  if obs == ["na"] then return r.addCover ("op-" ++ op ++ "-na")
+  let fmt := kvStr obs "fmt"
+  if fmt == "" then return r.mismatch sec line "well-formed observation" (joinSp obs)
+  if obs.any (fun w => w.endsWith "=panic") then
+    return r.violation sec line s!"crash instead of an error ({op}): {joinSp obs}"
+  match op with
+  | "again" =>
+    if kvStr obs "parse" != "ok" then
+      if fmt == "ok" then r := r.violation sec line s!"format.Source succeeds but parsing the same text again fails: {joinSp obs}"
+      else r := r.addCover "again-invalid"
+    else
+      if fmt != "ok" then r := r.violation sec line s!"format.Source fails for a text that parser.Parse accepts without error: {joinSp obs}"
+      else if kvStr obs "src" != "1" then
+        r := r.violation sec line s!"format.Source does not write what AST.Format writes for the same text: {joinSp obs}"
+      if kvStr obs "twice" != "1" then
+        r := r.violation sec line s!"formatting the SAME AST again writes a different text (Format changes the AST it prints): {joinSp obs}"
+      else r := r.addCover "again-same-ast-same-text"
+  | "file" =>
+    let file := kvStr obs "file"
+    if fmt == "ok" then
+      if file != "ok" then r := r.violation sec line s!"format.File fails for a text that format.Source formats: {joinSp obs}"
+      else if kvStr obs "same" != "1" then
+        r := r.violation sec line s!"format.File does not write what format.Source writes for the same text: {joinSp obs}"
+      else r := r.addCover "file-same-as-source"
+    else
+      if file != "err" then r := r.violation sec line s!"format.Source reports an error but format.File does not: {joinSp obs}"
+      else if kvStr obs "kept" != "1" then
+        r := r.violation sec line s!"format.File changed a file it could not format: {joinSp obs}"
+      else r := r.addCover "file-error-keeps-file"
+  | "inter" =>
+    let a := kvStr obs "a"
+    if kvStr obs "b" != "ok" then r := r.violation sec line s!"the fixed second program is rejected next to another parser instance: {joinSp obs}"
+    else if a != kvStr obs "c" then r := r.violation sec line s!"two parser instances disagree on the same text: {joinSp obs}"
+    else if a != "ok" then
+      if fmt == "ok" then r := r.violation sec line s!"format.Source succeeds but a parser instance next to others rejects the text: {joinSp obs}"
+      else r := r.addCover "inter-invalid"
+    else if fmt != "ok" then r := r.violation sec line s!"format.Source fails for a text that parser.Parse accepts without error: {joinSp obs}"
+    else if kvStr obs "sameA" != "1" || kvStr obs "sameC" != "1" || kvStr obs "sameB" != "1" then
+      r := r.violation sec line s!"parser / formatter instances that are alive at the same time influence each other: {joinSp obs}"
+    else r := r.addCover "inter-instances-independent"
+  | _ => r := r.mismatch sec line "bad-op" op
+  return r
+
 def runSection (r : Report) (s : Section) : Report := Id.run do
   let mut r := r
+  let mut src : List Char := []
   for l in s.lines do
     r := { r with ops := r.ops + 1 }
     match l.op with
-    | ["s", _] =>
+    | ["s", c] =>
+      src := src ++ unescL c.toList
       if l.obs != ["ok"] then r := r.mismatch s.idx l.idx "ok" (joinSp l.obs)
-    | ["fmt"] => r := runFmt r s.idx l.idx s.cfg l.obs
+    | ["fmt"] => r := runFmt r s.idx l.idx s.cfg src l.obs
+    | ["again"] => r := runExtra r s.idx l.idx "again" l.obs
+    | ["file"] => r := runExtra r s.idx l.idx "file" l.obs
+    | ["inter"] => r := runExtra r s.idx l.idx "inter" l.obs
     | _ => r := r.mismatch s.idx l.idx "bad-op" (joinSp l.op)
   return r
 
